@@ -908,6 +908,11 @@ impl SchemaVersion {
                 Err(error::Format::DeserializationError(
                     "check all is only supported in datalog v3.1+".to_string(),
                 ))
+            } else if self.contains_v3_3 {
+                // a block declaring 3.0 is also older than 3.3
+                Err(error::Format::DeserializationError(
+                    "maps, arrays, null, closures are only supported in datalog v3.3+".to_string(),
+                ))
             } else {
                 Ok(())
             }
